@@ -810,13 +810,19 @@ impl World {
         let ptoken = k(0x62, id as u8);
         let stranger = k(0x63, 9);
         let mut pdata = base.positions[&id].clone();
-        pdata[8..40].copy_from_slice(fx.pool.as_ref());
+        // authMode 3: a stranger signs and passes HIS OWN token account holding one token of another mint (C04);
+        // authMode 4: the position account belongs to ANOTHER pool (C15)
+        pdata[8..40].copy_from_slice(if auth_mode == 4 { k(0x77, 1) } else { fx.pool }.as_ref());
         pdata[40..72].copy_from_slice(pmint.as_ref());
         let pos_units = *base.pos_rent.get(&id).unwrap_or(&2);
         fx.bank.set(position, ::whirlpool::ID, min_balance(pdata.len()) + pos_units as u64 * TICK_RENT, pdata);
         fx.bank.set(pmint, anchor_spl::token::ID, 1_000_000, crate::fixture::mint_data(false, 0, None, 0));
         fx.bank.set(ptoken, anchor_spl::token::ID, 2_000_000, crate::fixture::token_account_data(false, &pmint, &fx.trader, 1, false));
         fx.bank.set(stranger, crate::svm::system_id(), 1_000_000, vec![]);
+        let (omint, otoken) = (k(0x64, id as u8), k(0x66, id as u8));
+        fx.bank.set(omint, anchor_spl::token::ID, 1_000_000, crate::fixture::mint_data(false, 0, None, 0));
+        fx.bank.set(otoken, anchor_spl::token::ID, 2_000_000, crate::fixture::token_account_data(false, &omint, &stranger, 1, false));
+        let ptoken = if auth_mode == 3 { otoken } else { ptoken };
         // tick arrays: exactly rent-exempt for their size plus the tick-rent units they hold
         for st in [ls, us] {
             let key = crate::fixture::tick_array_pda(&fx.pool, st);
@@ -827,7 +833,7 @@ impl World {
         }
         let bank0 = fx.bank.clone();
         let (ta_l, ta_u) = (crate::fixture::tick_array_pda(&fx.pool, ls), crate::fixture::tick_array_pda(&fx.pool, us));
-        let signer_key = if auth_mode == 1 { stranger } else { fx.trader };
+        let signer_key = if auth_mode == 1 || auth_mode == 3 { stranger } else { fx.trader };
         let (mut metas, data): (Vec<Meta>, Vec<u8>) = if ver == 2 {
             let acc = ::whirlpool::accounts::ModifyLiquidityV2 {
                 whirlpool: fx.pool,
@@ -925,7 +931,7 @@ impl World {
             }
             Ok(()) => {
                 if auth_mode != 0 {
-                    viols.push(format!("C04 the liquidity instruction succeeded although the position owner did not sign (mode {})", auth_mode));
+                    viols.push(format!("C04/C15 the liquidity instruction succeeded although {} (mode {})", match auth_mode { 3 => "a stranger holding one token of ANOTHER mint signed as the position's authority", 4 => "the position belongs to another pool than the one named", _ => "the position owner did not sign" }, auth_mode));
                 }
                 if let Some(pe) = by.as_ref().and_then(|b| b.pre_err.clone()) {
                     viols.push(format!("C08 increase_liquidity_by_token_amounts_v2 succeeded although it must fail with {}", pe));
@@ -1298,10 +1304,12 @@ impl World {
         let (a1, a2): (i64, i64) = (t[6].parse().unwrap(), t[7].parse().unwrap());
         let v2 = kind == "cf" && ver == 2;
         let (fee_a, fee_b) = if v2 { (parse_fee(t[8], t[9], t[10]), parse_fee(t[11], t[12], t[13])) } else { (None, None) };
-        if kind == "upd" {
+        // modes 5 / 6 (C15 / C04): 5 = the position account belongs to ANOTHER pool (not for close, which names no pool);
+        // 6 = a stranger signs and passes HIS OWN token account holding one token of another mint (not for upd)
+        if kind == "upd" && auth_mode != 5 {
             auth_mode = 0;
         }
-        if kind == "close" && auth_mode >= 3 {
+        if kind == "close" && (3..=5).contains(&auth_mode) {
             // a delegate can burn but not close the token account: not a variant of this experiment
             auth_mode = 0;
         }
@@ -1326,7 +1334,7 @@ impl World {
         let stranger = k(0x63, 9);
         let delegate = k(0x63, 10);
         let mut pdata = base.positions[&id].clone();
-        pdata[8..40].copy_from_slice(fx.pool.as_ref());
+        pdata[8..40].copy_from_slice(if auth_mode == 5 { k(0x77, 1) } else { fx.pool }.as_ref());
         pdata[40..72].copy_from_slice(pmint.as_ref());
         let pos_units = *base.pos_rent.get(&id).unwrap_or(&2);
         fx.bank.set(position, ::whirlpool::ID, min_balance(pdata.len()) + pos_units as u64 * TICK_RENT, pdata.clone());
@@ -1345,12 +1353,18 @@ impl World {
             _ => crate::fixture::token_account_data(false, &pmint, &fx.trader, 1, false),
         };
         fx.bank.set(ptoken, anchor_spl::token::ID, 2_100_000, tdata);
+        // the stranger's own one-token account of another mint (mode 6)
+        let (omint, otoken) = (k(0x64, id as u8), k(0x66, id as u8));
+        let pm = fx.bank.data(&pmint);
+        fx.bank.set(omint, anchor_spl::token::ID, 1_500_000, pm);
+        fx.bank.set(otoken, anchor_spl::token::ID, 2_100_000, crate::fixture::token_account_data(false, &omint, &stranger, 1, false));
+        let ptoken = if auth_mode == 6 { otoken } else { ptoken };
         fx.bank.set(stranger, crate::svm::system_id(), 1_000_000, vec![]);
         fx.bank.set(delegate, crate::svm::system_id(), 1_000_000, vec![]);
         fx.bank.set_program(crate::svm::system_id());
         let bank0 = fx.bank.clone();
         let signer_key = match auth_mode {
-            1 => stranger,
+            1 | 6 => stranger,
             3 | 4 => delegate,
             _ => fx.trader,
         };
@@ -1454,6 +1468,14 @@ impl World {
                 format!("err {}", name)
             }
             Ok(()) => {
+                if auth_mode == 5 {
+                    viols.push(format!("C15 position instruction `{}` succeeded on a position that belongs to another pool than the one named", kind));
+                    return XHopOut { line: "ACCEPTED".to_string(), viols, tags };
+                }
+                if auth_mode == 6 {
+                    viols.push(format!("C04 position instruction `{}` accepted a stranger who holds one token of ANOTHER mint as the position's authority", kind));
+                    return XHopOut { line: "ACCEPTED".to_string(), viols, tags };
+                }
                 if !authorised {
                     viols.push(format!("C04 position instruction `{}` succeeded although neither the holder of the position token nor its one-token delegate signed (mode {})", kind, auth_mode));
                 }
@@ -1689,13 +1711,18 @@ impl World {
         let ptoken = k(0x62, id as u8);
         let stranger = k(0x63, 9);
         let mut pdata = base.positions[&id].clone();
-        pdata[8..40].copy_from_slice(fx.pool.as_ref());
+        // authMode 3: a stranger with one token of another mint (C04_8b); authMode 4: the position belongs to another pool (C15)
+        pdata[8..40].copy_from_slice(if auth_mode == 4 { k(0x77, 1) } else { fx.pool }.as_ref());
         pdata[40..72].copy_from_slice(pmint.as_ref());
         let pos_units = *base.pos_rent.get(&id).unwrap_or(&2);
         fx.bank.set(position, ::whirlpool::ID, min_balance(pdata.len()) + pos_units as u64 * TICK_RENT, pdata);
         fx.bank.set(pmint, anchor_spl::token::ID, 1_000_000, crate::fixture::mint_data(false, 0, None, 0));
         fx.bank.set(ptoken, anchor_spl::token::ID, 2_000_000, crate::fixture::token_account_data(false, &pmint, &fx.trader, 1, false));
         fx.bank.set(stranger, crate::svm::system_id(), 1_000_000_000, vec![]);
+        let (omint, otoken) = (k(0x64, id as u8), k(0x66, id as u8));
+        fx.bank.set(omint, anchor_spl::token::ID, 1_000_000, crate::fixture::mint_data(false, 0, None, 0));
+        fx.bank.set(otoken, anchor_spl::token::ID, 2_000_000, crate::fixture::token_account_data(false, &omint, &stranger, 1, false));
+        let ptoken = if auth_mode == 3 { otoken } else { ptoken };
         fx.bank.set_program(crate::svm::system_id());
         let mut starts = vec![ls, us, nls, nus];
         starts.sort();
@@ -1708,7 +1735,7 @@ impl World {
             fx.bank.accts.insert(key, a);
         }
         let bank0 = fx.bank.clone();
-        let signer_key = if auth_mode == 1 { stranger } else { fx.trader };
+        let signer_key = if auth_mode == 1 || auth_mode == 3 { stranger } else { fx.trader };
         let acc = ::whirlpool::accounts::RepositionLiquidityV2 {
             whirlpool: fx.pool,
             token_program_a: fx.prog_a,
@@ -1791,7 +1818,7 @@ impl World {
             }
             Ok(()) => {
                 if auth_mode != 0 {
-                    viols.push(format!("C04 reposition succeeded although the position owner did not sign (mode {})", auth_mode));
+                    viols.push(format!("C04/C15 reposition succeeded although {} (mode {})", match auth_mode { 3 => "a stranger holding one token of ANOTHER mint signed as the position's authority", 4 => "the position belongs to another pool than the one named", _ => "the position owner did not sign" }, auth_mode));
                 }
                 match (&ref_full, &expect) {
                     (Ok((da, db, ia, ib)), Some(((ta, fa, from_a), (tb, fb, from_b)))) => {
